@@ -20,7 +20,8 @@ CHECKS = {
              'single-character edits of valid documents, random texts, 1..20000-digit integers, floats, nesting 1..64) are dispatched '
              'on the real sync / async dispatchers under 4 batch-size limits and 3 extra flavours (plain functions on the async '
              'dispatcher, inert middleware + handler tables); every return value is judged by a strict JSON decoder and a structural '
-             'checker that share no code with pjrpc. The repository test-suite additionally runs under icontract / wrapper contracts.',
+             'checker that share no code with pjrpc. The repository test-suite additionally runs under icontract / wrapper contracts. '
+             'Extra dispatcher flavours: plain functions on the async dispatcher, inert hooks with unconventional parameter names, pjrpc loggers enabled for DEBUG.',
         note='trusted: vmon/strictjson.py, vmon/models/wire.py; probe methods return JSON-encodable values; lenient-parser tokens judged for totality only'),
     'C02': dict(
         category='exploration', design_ref='DESIGN.md §3 C02, §8',
@@ -46,7 +47,8 @@ CHECKS = {
              'as source, registered on the real dispatchers and driven with all positional lists 0..5 and all named subsets (incl. an '
              'unknown name and the context name); a twin with the same signature called directly decides what must bind. Names collide '
              'textually with the context name, a view\'s context name equals a parameter name, one function object is registered with '
-             'and without a context, all generated functions share one __qualname__.',
+             'and without a context, all generated functions share one __qualname__. '
+             'Also: names the library uses for its own parameters, an async def behind a functools.wraps decorator, the same programs under the pydantic validator (Union[int, str] = None defaults) and under a validator built with exclude_param, by-name arguments wrapped in an array.',
         note='trusted: CPython call semantics (the twin), the admissibility rule of DESIGN.md §3 C04; known findings D4, D18'),
     'C05': dict(
         category='exploration', design_ref='DESIGN.md §3 C05, §8',
@@ -54,7 +56,8 @@ CHECKS = {
         text='Generated requests, responses, errors, batches and batch-level errors (nested / empty / edge JSON values, all id typings, '
              'registered codes incl. a class with class-level data, unregistered codes incl. 0 and the reserved range, empty messages, '
              'three base classes in both orders of use) go through both encoders and back; wire-form exactness is judged on an '
-             'independently decoded text, exception classes by type identity; batches also through serialise/append/extend histories.',
+             'independently decoded text, exception classes by type identity; batches also through serialise/append/extend histories. '
+             'Also: method names not in a Unicode normal form, params member names that are no identifiers, error classes created through a derived metaclass, a code declared by two classes, null-id elements in batch responses, and the same batches through the real clients.',
         note='trusted: vmon/strictjson.py, vmon/gen/values.py; -0.0 vs 0.0 not distinguished'),
     'C06': dict(
         category='exploration', design_ref='DESIGN.md §3 C06, §8',
@@ -63,7 +66,8 @@ CHECKS = {
              '<= 3 elements over 12 shapes plus 4/5-element double duplicates, batch-level error objects, and all append/extend histories '
              'of <= 3 operations over 6 ids (4-5 sampled, mixed-type double duplicates) are executed; exception type and accepted/refused '
              'verdict are compared with validity predicates, batch contents with a list model after every operation; one shard runs under '
-             'icontract invariants on the real batch classes.',
+             'icontract invariants on the real batch classes. '
+             'Registered error codes (library and user) are crossed with absent / ill-typed messages.',
         note='trusted: validity predicates in vmon/monitors/c06.py; float ids and rejection of valid values are not judged'),
     'C07': dict(
         category='exploration', design_ref='DESIGN.md §3 C07, §8',
@@ -80,7 +84,8 @@ CHECKS = {
              'array x success/error mixes x {omit, duplicate, unasked id, retyped / boolean / fractional / null id, extra null-id element}, '
              'batch-level errors and garbage bodies are returned by a scripted transport to the real clients (strict on/off, send and '
              'call, also re-sending the same request object); accept / IdentityError / DeserializationError, request linking, call-order '
-             'attribution of unique tokens and survival of null-id errors are compared with the model.',
+             'attribution of unique tokens and survival of null-id errors are compared with the model. '
+             'Also: call ids of mixed JSON types, two missing and two stray answers.',
         note='trusted: vmon/models/client_match.py; non-JSON bodies and null-id elements combined with missing ids are not judged'),
     'C09': dict(
         category='fault_enumeration', design_ref='DESIGN.md §3 C09, §8',
@@ -89,7 +94,8 @@ CHECKS = {
              'with every outcome sequence of length n+2 for n in 0..2 (thorough 3; 3-4 sampled) over 6 outcome kinds, under a grid of '
              'backoff families / parameters (caps below the first delay, factor 1 and < 1, non-zero, negative and fresh-per-draw jitter, attempts 0; entry points send / call / client() / proxy / notify / batch.call()), 4 codes sets '
              'x 4 exception sets and 4 strategy sources; the interleaved send / sleep event sequence (arguments to 1e-9, positions, which '
-             'sleep function) and the object reaching the caller are compared with the model.',
+             'sleep function) and the object reaching the caller are compared with the model. '
+             'Also: delays that come back below the cap, exceptions that wrap a listed one, per-request strategies that list nothing, error codes from the reserved server-error range.',
         note='trusted: vmon/models/retry.py; the names time/asyncio inside pjrpc.client.retry are rebound to recording shims'),
     'C10': dict(
         category='exploration', design_ref='DESIGN.md §3 C10, §2.7, §8',
@@ -98,7 +104,8 @@ CHECKS = {
              'exception; 0..2 suspension points in method, middleware or error handler), with coroutine and plain-callable middlewares, '
              'are dispatched by the real AsyncDispatcher under a scheduler that parks every instrumented coroutine and resumes exactly '
              'one per step; all schedules of every generated shape are executed and judged (request-order array, own ids / results, '
-             'run-once, nothing left in flight, sequential mode never overlapping and in request order).',
+             'run-once, nothing left in flight, sequential mode never overlapping and in request order). '
+             'Element profiles include plain methods raising TypeError, class-based view methods keeping state on self, the codes -32600 / -32700, per-code handlers that sign the error, and a context variable set by the middleware and read after the method\'s suspension points.',
         note='trusted: vmon/sched.py; exhaustive over user-code suspension points of the generated shapes only'),
     'C11': dict(
         category='exploration', design_ref='DESIGN.md §3 C11, §8',
@@ -129,7 +136,8 @@ CHECKS = {
              '(3) 1000 requests with pairwise distinct client-controlled strings: gc counts and the logging manager must not grow; '
              '(4) 2..16 threads on one dispatcher with GIL yields injected at statement starts of dispatcher.py / validators / pjrpc/common, incl. cold '
              'dispatchers with response-changing middlewares, every response compared with the model / a sequential twin; (5) hooks that raise in the leak workload; (6) a fingerprint of '
-             'interpreter-wide settings (int digit limit, recursion limit, logging levels, json default codec ...) before, after and during dispatches.',
+             'interpreter-wide settings (int digit limit, recursion limit, logging levels, json default codec ...) before, after and during dispatches. '
+             'Also: dispatches cancelled from outside while batch members are suspended, one AsyncDispatcher under several event loops, the same request text repeated before a probe that mutates its arguments, custom validator code failing before a probe.',
         note='trusted: vmon/models/server.py; held on the interleavings observed (counted in the evidence), not on all'),
     'C14': dict(
         category='exploration', design_ref='DESIGN.md §3 C14, §8',
@@ -139,7 +147,8 @@ CHECKS = {
              '(PydanticValidator, coercion on/off; x: T = None defaults; schemas declaring draft-04), with context and excluded parameters, as function / coroutine / view method, are '
              'called with conforming, coercible and non-conforming values positionally and by name; executed-iff-conforming, -32602 with '
              'encodable data, unchanged / converted arguments and non-settable excluded parameters are judged against an evaluator '
-             'written for exactly that alphabet. One function object is also registered without a context.',
+             'written for exactly that alphabet. One function object is also registered without a context. '
+             'Also: per-item array constraints, methods compiled under postponed annotations in a real module, dispatchers handed out by an integration\'s add_endpoint().',
         note='trusted: frag_ok / schema_ok and the ANNOT table in vmon/monitors/c14.py (checked against pydantic 2.13 lax mode)'),
     'C15': dict(
         category='exploration', design_ref='DESIGN.md §3 C15, §8',
@@ -148,7 +157,8 @@ CHECKS = {
              'dispatcher.view over registries with prefixes None, "a", "a.b" (<= 3 operations enumerated over a reduced alphabet, <= 6 '
              'sampled, crafted three-level, same-prefix and repeated-source merges, re-registrations) on both dispatchers; every model '
              'name, every name one edit away and every private / dunder / non-callable member of views with instance, static, class '
-             'and inherited members (also from mixins behind ViewMixin, and a derived view replacing its base) under every prefix in play, and explicitly registered underscore names, is requested and the reached target token compared with the model.',
+             'and inherited members (also from mixins behind ViewMixin, and a derived view replacing its base) under every prefix in play, and explicitly registered underscore names, is requested and the reached target token compared with the model. '
+             'Names may be given as str-mixin enum members or str subclasses; a registered view whose constructor raises KeyError must not look unregistered; a derived view may turn an inherited attribute into a method.',
         note='trusted: the name model inside vmon/monitors/c15.py; add_methods(Method) under a prefix is not judged'),
     'C16': dict(
         category='exploration', design_ref='DESIGN.md §3 C16, §8',
@@ -158,7 +168,8 @@ CHECKS = {
              'x five extractor stacks x endpoint prefixes become OpenAPI 3.1.0 / 3.0.3 and OpenRPC 1.3.2 documents 1..3 times, with a '
              'bystander specification built in between; exceptions, encodability, completeness, repeat-identity, fingerprints of metadata / '
              'user objects, "entry alone == entry together in any order (component names included)", "a reused specification object == a '
-             'fresh one" are judged in process, meta-schema validity and dangling $refs by a jsonschema-4 worker.',
+             'fresh one" are judged in process, meta-schema validity and dangling $refs by a jsonschema-4 worker. '
+             'Also: parameters named ref, hand-written content descriptors, docstrings with types but no text, abstract / unknown names in :raises:, undocumented overrides of documented base methods, names differing only in separators; meta-schema failures are located by their innermost sub-error.',
         note='trusted: vendored meta-schemas (hash-pinned copies of tests/server/resources), jsonschema 4.26 of python3-vt; known findings D13d, D22, D23'),
     'C17': dict(
         category='exploration', design_ref='DESIGN.md §3 C17, §8',
@@ -168,7 +179,8 @@ CHECKS = {
              'function / instance, static and class view method / wrapper publishing a narrowed __signature__ are documented by OpenAPI 3.1 and OpenRPC (pydantic extractor), acceptance judged under the base validator and three pydantic configurations; documented names / required lists are '
              'compared with the signature, and params objects over all subsets of (documented + undocumented + context + excluded names) '
              'are dispatched on the real dispatcher to compare acceptance with the document\'s prediction; the same function is also '
-             'registered without a context and both registrations are probed alternately.',
+             'registered without a context and both registrations are probed alternately. '
+             'Also OpenAPI 3.0.x documents, parameters named like schema keywords, *rest parameters, Optional annotations on required parameters, a bystander method whose name differs only in a separator.',
         note='trusted: the real dispatcher with the base validator as acceptance reference (itself judged by C04)'),
     'C18': dict(
         category='exploration', design_ref='DESIGN.md §3 C18, §8',
@@ -178,7 +190,8 @@ CHECKS = {
              'x four status-by-error functions x three path prefixes x root / added / sub-application endpoints that answer with their own '
              'name go through aiohttp (loop-back TestServer), flask and werkzeug applications built by the integrations; status, recorded '
              'status-function argument, body document, content type, empty-200, 415-and-no-execution and escaping exceptions are judged '
-             'against a twin dispatcher called directly, and the three replies to one request against each other.',
+             'against a twin dispatcher called directly, and the three replies to one request against each other. '
+             'A reply that never comes is a verdict only if a control request to the same application is answered; endpoints behind a flask blueprint with its own url_prefix.',
         note='trusted: the twin dispatcher (itself judged by C01-C03); loop-back sockets must be available for the aiohttp part'),
     'C19': dict(
         category='fault_enumeration', design_ref='DESIGN.md §3 C19, §8',
@@ -188,7 +201,8 @@ CHECKS = {
              'the transport is suspended), with tracers whose handlers are class or instance attributes, notifications answered with a '
              'body under strict / non-strict clients, also from inside an except block, and 2..3 requests are kept in flight through one async client '
              'and released in every order; an automaton checks begin/completion pairing per attempt, configuration order, payload identity, '
-             'trace-context identity and the exception reaching the caller.',
+             'trace-context identity and the exception reaching the caller. '
+             'Also: StopIteration raised by the transport, batches built with strict=False, a last tracer that raises in a completion handler (judged for one begin / exactly one completion per tracer).',
         note='trusted: vmon/models/retry.py for which attempts happen; probe tracers do not raise'),
     'C20': dict(
         category='exploration', design_ref='DESIGN.md §3 C20, §8',
@@ -196,7 +210,8 @@ CHECKS = {
         text='Histories of add / replace / remove / reset operations and single / batch (1..3 elements) calls (positional and named params, ids incl. 0 and '
              '"") over 2 endpoints x 2 methods, passthrough on/off, sync and async transports are executed against the real PjRpcMocker; '
              'after every call the reply text, refusal, passthrough invocation and mocker.calls are compared with a rotating-list model. '
-             'Histories of <= 3 operations over a reduced alphabet are enumerated, longer ones sampled.',
+             'Histories of <= 3 operations over a reduced alphabet are enumerated, longer ones sampled. '
+             'Also: batches of one element, parameter names of the mocker\'s own functions, negative replace indices, stop/start of one mocker object, the library\'s requests / httpx / aiohttp backends with non-normalised URLs.',
         note='trusted: the list model inside vmon/monitors/c20.py; notifications and invalid remove/replace are not generated'),
 }
 
